@@ -17,14 +17,16 @@ Definition new_sess (now : Z) : sess := {| s_max_resp := 1048576; s_max_req := 1
 
 Inductive frame :=
 | FBad                                            (* bytes that RequestMessage.read refuses *)
+| FNoAuth                                         (* a well-formed request of a client the authentication service does not know *)
 | FReq (q : xrequest) (qmax : option Z) (len : Z). (* a request, its Maximum Response Size, and the encoded length of
                                                       the engine's answer (oracle input: the model has no encoder) *)
 
-Inductive sout := SInvalid | STooLarge | SAnswer (o : xout).
+Inductive sout := SInvalid | SAuthFail | STooLarge | SAnswer (o : xout).
 
 Definition handle_message (ss : sess) (s : xstore * transient) (who : Z) (f : frame) : sout * sess * (xstore * transient) :=
   match f with
   | FBad => (SInvalid, ss, s)
+  | FNoAuth => (SAuthFail, ss, s)                  (* the engine is not called *)
   | FReq q qmax len =>
       let '(o, s') := process_request (fst s) (snd s) who q in
       match o with
@@ -46,7 +48,7 @@ Fixpoint run_connection (ss : sess) (s : xstore * transient) (who : Z) (fs : lis
 
 Lemma session_unchanged : forall ss s who f, snd (fst (handle_message ss s who f)) = ss.
 Proof.
-  intros ss s who f. destruct f as [|q qmax len]; simpl; auto.
+  intros ss s who f. destruct f as [| |q qmax len]; simpl; auto.
   destruct (process_request (fst s) (snd s) who q) as [o s']. destruct o; simpl; auto.
 Qed.
 
@@ -63,7 +65,7 @@ Lemma message_transient_irrelevant : forall ss xs t1 t2 who f,
   fst (fst (handle_message ss (xs, t1) who f)) = fst (fst (handle_message ss (xs, t2) who f)) /\
   fst (snd (handle_message ss (xs, t1) who f)) = fst (snd (handle_message ss (xs, t2) who f)).
 Proof.
-  intros ss xs t1 t2 who f. destruct f as [|q qmax len]; simpl; auto.
+  intros ss xs t1 t2 who f. destruct f as [| |q qmax len]; simpl; auto.
   pose proof (transient_irrelevant xs t1 t2 who q) as [H1 H2].
   destruct (process_request xs t1 who q) as [o1 [xs1 t1']]. destruct (process_request xs t2 who q) as [o2 [xs2 t2']].
   simpl in H1, H2. subst o2 xs2. destruct o1; simpl; auto.
@@ -88,6 +90,7 @@ Qed.
 Definition handle_message_sticky (ss : sess) (s : xstore * transient) (who : Z) (f : frame) : sout * sess * (xstore * transient) :=
   match f with
   | FBad => (SInvalid, ss, s)
+  | FNoAuth => (SAuthFail, ss, s)
   | FReq q qmax len =>
       let '(o, s') := process_request (fst s) (snd s) who q in
       match o with
@@ -121,7 +124,7 @@ Inductive sevent :=
 
 Definition sout_eqb (a b : sout) : bool :=
   match a, b with
-  | SInvalid, SInvalid | STooLarge, STooLarge => true
+  | SInvalid, SInvalid | STooLarge, STooLarge | SAuthFail, SAuthFail => true
   | SAnswer x, SAnswer y => xout_eqb x y
   | _, _ => false
   end.
@@ -166,4 +169,5 @@ Definition SF (conn : Z) (ev : xevent) (qmax : option Z) (len : Z) : sevent :=
   | XRestart => SRestartAll
   end.
 Definition SBadF (conn who : Z) : sevent := SMsg conn who FBad.
+Definition SNoAuthF (conn who : Z) : sevent := SMsg conn who FNoAuth.
 Definition SO (o : option sout) (n : Z) (us : list Z) : sobs := {| so_out := o; so_next := n; so_uids := us |}.
